@@ -672,6 +672,71 @@ func genSwitch(repo string) (string, error) {
 	}
 	sb.WriteString("\n].\n")
 
+	// ---- every type assertion WITHOUT the comma-ok form in the same files: a failed one is a runtime panic
+	// (interface conversion), so each is an implicit panic site
+	var asites []psite
+	for _, rel := range []string{"internal/codec/decoder.go", "internal/codec/query.go", "internal/codec/codec.go",
+		"lib/j5reflect/value_go.go", "lib/j5reflect/type_scalar.go", "lib/j5reflect/type_enum.go", "lib/j5reflect/type_array.go",
+		"lib/j5reflect/type_map.go", "lib/j5reflect/type_oneof.go", "lib/j5reflect/type_object.go", "lib/j5reflect/type_any.go",
+		"lib/j5reflect/property_set.go", "lib/j5reflect/protoval.go", "lib/j5reflect/reflect.go", "j5types/date_j5t/date.go"} {
+		pfs, pf2, err := gen.ParseFile(filepath.Join(repo, rel))
+		if err != nil {
+			return "", err
+		}
+		for _, d := range pf2.Decls {
+			fdl, ok := d.(*ast.FuncDecl)
+			if !ok || fdl.Body == nil {
+				continue
+			}
+			checked := map[*ast.TypeAssertExpr]bool{}
+			ast.Inspect(fdl.Body, func(x ast.Node) bool {
+				switch st := x.(type) {
+				case *ast.AssignStmt:
+					if len(st.Lhs) == 2 && len(st.Rhs) == 1 {
+						if ta, ok := st.Rhs[0].(*ast.TypeAssertExpr); ok {
+							checked[ta] = true
+						}
+					}
+				case *ast.ValueSpec:
+					if len(st.Names) == 2 && len(st.Values) == 1 {
+						if ta, ok := st.Values[0].(*ast.TypeAssertExpr); ok {
+							checked[ta] = true
+						}
+					}
+				}
+				return true
+			})
+			ast.Inspect(fdl.Body, func(x ast.Node) bool {
+				if ta, ok := x.(*ast.TypeAssertExpr); ok && ta.Type != nil && !checked[ta] {
+					arg := exprString(pfs, ta)
+					if len(arg) > 70 {
+						arg = arg[:70]
+					}
+					asites = append(asites, psite{rel, fdl.Name.Name, arg})
+				}
+				return true
+			})
+		}
+	}
+	sort.Slice(asites, func(i, j int) bool {
+		if asites[i].file != asites[j].file {
+			return asites[i].file < asites[j].file
+		}
+		if asites[i].fn != asites[j].fn {
+			return asites[i].fn < asites[j].fn
+		}
+		return asites[i].arg < asites[j].arg
+	})
+	sb.WriteString("(* every type assertion x.(T) without the comma-ok form in the same files (a failing one panics): (file, function, expression) *)\n")
+	sb.WriteString("Definition unchecked_type_assertions : list (string * string * string) := [\n")
+	for i, ps := range asites {
+		if i > 0 {
+			sb.WriteString(";\n")
+		}
+		fmt.Fprintf(&sb, "  (%s, %s, %s)", gen.CoqString(ps.file), gen.CoqString(ps.fn), gen.CoqString(ps.arg))
+	}
+	sb.WriteString("\n].\n")
+
 	// ---- protoval.go: protoPair.setValue clears on an invalid value; list value refuses it
 	_, pf, err := gen.ParseFile(filepath.Join(repo, "lib/j5reflect/protoval.go"))
 	if err != nil {
